@@ -1,6 +1,143 @@
-//! ops family `algebra` (stub — replaced when the family is implemented)
+//! ops family `algebra`: binary set operations in every operand / assign form (C02), relations and
+//! cardinality-only operations (C08).  Public API only.
+//!
+//! `or|and|sub|xor <form> bD bL bR`, form ∈ {oo, or, ro, rr, ao, ar}: owned operands are clones of the
+//! slots; the result is stored in `bD` (and, for the assigning forms, `bL` is the assigned-to value).
+//! After a form with borrowed operands the element hash of every *borrowed* operand is printed, taken
+//! after the operation ran — the model prints the hash of its (unchanged) value.
 use super::*;
 
-pub fn handle(_st: &mut State, _toks: &[&str]) -> HResult {
-    None
+fn elem_hash(b: &RoaringBitmap) -> String {
+    let mut h = FNV_BASIS;
+    for x in b.iter() {
+        h = fnv_step(h, x as u64);
+    }
+    format!("{:016x}", h)
+}
+
+/// (key, kind) per chunk, from the public API: a chunk is a bitset iff it holds more than 4096 values
+fn kinds(b: &RoaringBitmap) -> Vec<(u32, char)> {
+    let mut v: Vec<(u32, u32)> = Vec::new();
+    for x in b.iter() {
+        let k = x >> 16;
+        match v.last_mut() {
+            Some((lk, n)) if *lk == k => *n += 1,
+            _ => v.push((k, 1)),
+        }
+    }
+    v.into_iter().map(|(k, n)| (k, if n > 4096 { 'B' } else { 'A' })).collect()
+}
+
+/// coverage tag: one cell `LR>D` per pair of the merge-join of the operands' chunk keys
+fn cell_tags(l: &[(u32, char)], r: &[(u32, char)], d: &[(u32, char)]) -> String {
+    let (mut i, mut j) = (0, 0);
+    let mut cells = Vec::new();
+    while i < l.len() || j < r.len() {
+        let (key, lk, rk);
+        if j >= r.len() || (i < l.len() && l[i].0 < r[j].0) {
+            key = l[i].0;
+            lk = l[i].1;
+            rk = '-';
+            i += 1;
+        } else if i >= l.len() || r[j].0 < l[i].0 {
+            key = r[j].0;
+            lk = '-';
+            rk = r[j].1;
+            j += 1;
+        } else {
+            key = l[i].0;
+            lk = l[i].1;
+            rk = r[j].1;
+            i += 1;
+            j += 1;
+        }
+        let dk = d.iter().find(|c| c.0 == key).map(|c| c.1).unwrap_or('-');
+        cells.push(format!("{}{}>{}", lk, rk, dk));
+    }
+    cells.join(",")
+}
+
+macro_rules! binop_forms {
+    ($form:expr, $l:expr, $r:expr, $op:tt, $opa:tt) => {{
+        let l: &mut RoaringBitmap = $l;
+        let r: &RoaringBitmap = $r;
+        match $form {
+            "oo" => Some((l.clone() $op r.clone(), "ok".to_string())),
+            "or" => {
+                let d = l.clone() $op r;
+                Some((d, format!("ok r={}", elem_hash(r))))
+            }
+            "ro" => {
+                let d = &*l $op r.clone();
+                Some((d, format!("ok l={}", elem_hash(l))))
+            }
+            "rr" => {
+                let d = &*l $op r;
+                Some((d, format!("ok l={} r={}", elem_hash(l), elem_hash(r))))
+            }
+            "ao" => {
+                *l $opa r.clone();
+                Some((l.clone(), "ok".to_string()))
+            }
+            "ar" => {
+                *l $opa r;
+                Some((l.clone(), format!("ok r={}", elem_hash(r))))
+            }
+            _ => None,
+        }
+    }};
+}
+
+pub fn handle(st: &mut State, toks: &[&str]) -> HResult {
+    match toks {
+        [op @ ("or" | "and" | "sub" | "xor"), form, d, l, r] => {
+            let di = slot('b', d)?;
+            let li = slot('b', l)?;
+            let ri = slot('b', r)?;
+            if !matches!(*form, "oo" | "or" | "ro" | "rr" | "ao" | "ar") {
+                return None;
+            }
+            st.bm[li].as_ref()?;
+            // the right operand is only ever read: work on a snapshot when both operands are the same slot
+            let rsnap;
+            let (lref, rref): (&mut RoaringBitmap, &RoaringBitmap) = if li == ri {
+                rsnap = st.bm[ri].as_ref()?.clone();
+                (st.bm[li].as_mut()?, &rsnap)
+            } else {
+                st.bm[ri].as_ref()?;
+                let (x, y) = if li < ri {
+                    let (a, b) = st.bm.split_at_mut(ri);
+                    (a[li].as_mut()?, b[0].as_ref()?)
+                } else {
+                    let (a, b) = st.bm.split_at_mut(li);
+                    (b[0].as_mut()?, a[ri].as_ref()?)
+                };
+                (x, y)
+            };
+            let (lk, rk) = (kinds(lref), kinds(rref));
+            let (res, out) = match *op {
+                "or" => binop_forms!(*form, lref, rref, |, |=),
+                "and" => binop_forms!(*form, lref, rref, &, &=),
+                "sub" => binop_forms!(*form, lref, rref, -, -=),
+                _ => binop_forms!(*form, lref, rref, ^, ^=),
+            }?;
+            let out = format!("{} | p={}", out, cell_tags(&lk, &rk, &kinds(&res)));
+            st.bm[di] = Some(res);
+            Some(out)
+        }
+        [q @ ("is_subset" | "is_superset" | "is_disjoint" | "inter_len" | "union_len" | "diff_len" | "xor_len"), l, r] => {
+            let x = st.bm[slot('b', l)?].as_ref()?;
+            let y = st.bm[slot('b', r)?].as_ref()?;
+            Some(match *q {
+                "is_subset" => x.is_subset(y).to_string(),
+                "is_superset" => x.is_superset(y).to_string(),
+                "is_disjoint" => x.is_disjoint(y).to_string(),
+                "inter_len" => x.intersection_len(y).to_string(),
+                "union_len" => x.union_len(y).to_string(),
+                "diff_len" => x.difference_len(y).to_string(),
+                _ => x.symmetric_difference_len(y).to_string(),
+            })
+        }
+        _ => None,
+    }
 }
